@@ -443,6 +443,47 @@ pub fn c15(args: &[String]) {
         let _ = std::fs::remove_dir_all(&dir2);
         let _ = std::fs::remove_dir_all(&dir);
     }
+    // a steady stream of notifications about a loaded, not yet reloaded asset while the cache is dropped: the
+    // reloader must still notice that its cache is gone (and the stream ends because its sends start failing)
+    let mut stream_left = 0usize;
+    if kind == "mem" {
+        trace::disable();
+        let before = reloader_threads().len();
+        for _ in 0..3 {
+            let s2 = MemSource::new(true);
+            s2.st.lock().unwrap().trace_reads = false;
+            s2.put("a", "x", b"v1");
+            let cache = AssetCache::with_source(s2.clone());
+            let _ = cache.load::<Leaf<0>>("a");
+            let stop = Arc::new(AtomicBool::new(false));
+            let (s3, stop2) = (s2.clone(), stop.clone());
+            let streamer = std::thread::spawn(move || {
+                let mut n = 0u64;
+                while !stop2.load(Ordering::SeqCst) {
+                    n += 1;
+                    s3.put("a", "x", format!("v{}", n % 100).as_bytes());
+                    match s3.sender() {
+                        Some(tx) => {
+                            if tx.send(OwnedDirEntry::File("a".into(), "x".into())).is_err() {
+                                break;
+                            }
+                        }
+                        None => break,
+                    }
+                    std::thread::sleep(std::time::Duration::from_millis(2));
+                }
+            });
+            std::thread::sleep(std::time::Duration::from_millis(120));
+            drop(cache);
+            // measured WHILE the stream goes on (its sends fail once the reloader is gone, which ends it)
+            std::thread::sleep(std::time::Duration::from_millis(700));
+            stream_left += reloader_threads().len().saturating_sub(before);
+            stop.store(true, Ordering::SeqCst);
+            let _ = streamer.join();
+            std::thread::sleep(std::time::Duration::from_millis(100));
+        }
+        trace::enable();
+    }
     let mut join_blocked = 0usize;
     let mut join_waits: Vec<u64> = Vec::new();
     if kind == "mem" {
@@ -465,7 +506,7 @@ pub fn c15(args: &[String]) {
         trace::enable();
     }
     trace::write_ndjson(&out, &all).unwrap();
-    println!("REPORT {}", json!({"kind":kind,"join_source_blocked":join_blocked,"join_source_waits_ms":join_waits,"rounds":results,"events":all.len(),"watcher_threads_left":watcher_threads_left,"watcher_threads_dotted":watcher_threads_dotted}));
+    println!("REPORT {}", json!({"kind":kind,"join_source_blocked":join_blocked,"threads_left_after_streams":stream_left,"join_source_waits_ms":join_waits,"rounds":results,"events":all.len(),"watcher_threads_left":watcher_threads_left,"watcher_threads_dotted":watcher_threads_dotted}));
 }
 
 // ---------------------------------------------------------------------------
@@ -734,7 +775,7 @@ pub fn c07(args: &[String]) {
             r2.store(true, Ordering::SeqCst);
         });
         let arrived = gate.wait_arrived(1, std::time::Duration::from_secs(10));
-        std::thread::sleep(std::time::Duration::from_millis(1400));
+        std::thread::sleep(std::time::Duration::from_millis(2600));
         early_return = arrived && returned.load(Ordering::SeqCst);
         gate.open();
         src.clear_gates();
